@@ -152,6 +152,10 @@ def trainer_case(tname, B, seed):
             tr = TripletSTDP(0.01, 0.002, -0.02, 0.003, 10.0, 20.0, 15.0, 30.0, batch_reduction=torch.sum)
         elif tname == "mstdp":
             tr = MSTDP(0.01, -0.02, 10.0, 15.0, batch_reduction=torch.sum)
+        elif tname == "mstdp_tensor":
+            # potentiation-only rates with PER-SAMPLE rewards of both signs: a punished sample contributes a depressing part
+            # only - alone (batch size 1) exactly as inside a batch whose other samples are rewarded
+            tr = MSTDP(0.01, 0.02, 10.0, 15.0, batch_reduction=torch.sum)
         elif tname == "kernel":
             # a kernel whose SIGN depends on the spike-time difference: different samples push one synapse in opposite directions,
             # so splitting into potentiating / depressing parts must happen per sample, before the batch reduction
@@ -168,12 +172,19 @@ def trainer_case(tname, B, seed):
     big, small = build(B), [build(1) for _ in range(B)]
     fired = 0
     call = (lambda tr: tr(0.7)) if tname in ("mstdp", "mstdpet") else (lambda tr: tr())
+    rewards = torch.tensor([0.7 if b % 2 == 0 else -0.7 for b in range(B)])
     for t, x in enumerate(_sparse_inputs((2, 3), 12, B, seed, 0.7)):
         fired += int(big[0](x).sum())
-        call(big[1])
+        if tname == "mstdp_tensor":
+            big[1](rewards)
+        else:
+            call(big[1])
         for b in range(B):
             small[b][0](x[b:b + 1])
-            call(small[b][1])
+            if tname == "mstdp_tensor":
+                small[b][1](rewards[b:b + 1])
+            else:
+                call(small[b][1])
         pos_b, neg_b = big[2].updater.weight.pos, big[2].updater.weight.neg
         for name, whole, parts in (("pos", pos_b, [s[2].updater.weight.pos for s in small]), ("neg", neg_b, [s[2].updater.weight.neg for s in small])):
             tot = sum(p for p in parts if p is not None) if any(p is not None for p in parts) else None
@@ -205,7 +216,7 @@ def sweep(tier="quick", seed=0, unsupported=()):
     for kind, B in itertools.product(["serial", "biclique", "recurrent"], Bs):
         cases += 1
         add(layer_case(kind, B, seed))
-    for tname, B in itertools.product(["stdp", "triplet", "mstdp", "mstdpet", "kernel"], Bs):
+    for tname, B in itertools.product(["stdp", "triplet", "mstdp", "mstdpet", "kernel", "mstdp_tensor"], Bs):
         cases += 1
         add(trainer_case(tname, B, seed))
     return {"standins": [{"function": "batched run vs per-sample batch-size-1 runs: 8 neuron classes (adaptation frozen), 4 synapses incl. delayed reads, 4 connections x 4 synapses with/without delays, Serial/Biclique/RecurrentSerial; STDP/TripletSTDP/MSTDP/MSTDPET/KernelSTDP (sign-changing kernel) with batch_reduction=sum vs sum of per-sample steps", "domain": f"{cases} cases, 12-30 steps each, sparse per-sample spike sequences", "cases": cases, "proved": False, "label": "bounded"}], "failures": failures}
